@@ -74,13 +74,17 @@ class Table:
         try:
             return f()
         except Undecided as e:
-            raise AnalysisError(f"{self.rule} {self.name}: cannot decide ({label}): {e}")
+            # decided at done(): a definite bad cell elsewhere in the table is still a violation; otherwise exit 2
+            self.undecided.append(f"{label}: {e}")
+            return None
         except Raised as e:
             self.cells += 1
             self.bad.append(dict(config=label, raised=str(e)))
             return None
 
     def done(self, msg_fail, sample=None):
+        if self.undecided and not self.bad:
+            raise AnalysisError(f"{self.rule} {self.name}: cannot decide ({self.undecided[0]})" + (f" (+{len(self.undecided) - 1} more)" if len(self.undecided) > 1 else ""))
         if self.cells == 0:
             raise AnalysisError(f"{self.rule} {self.name}: no cells evaluated")
         if sample is not None:
